@@ -746,7 +746,8 @@ func genGate(r *rand.Rand, i int) *Program {
 	a := g.adds(1 + r.Intn(5))
 	var c []Op
 	if r.Intn(2) == 0 {
-		c = append(c, Op{Op: "tune", N: 1 + r.Intn(4)})
+		// also limits far beyond any int32 / uint32 arithmetic on them
+		c = append(c, Op{Op: "tune", N: []int{1, 2, 3, 4, 1 << 31, 1<<32 - 1, 1 << 32, 1<<62 + 5}[r.Intn(8)]})
 	}
 	p.Threads = [][]Op{a}
 	if len(c) > 0 {
